@@ -279,7 +279,7 @@ def run(chk, replay=None):
             chk.nontrivial('matrix|%d|%s' % (mi, layout))
 
     # ---------------------------------------------------------------- 3. random arrays (float cumulative total may round below 1)
-    n_rand = 30 if quick else 300
+    n_rand = 30 if quick else 1500
     for t in range(n_rand):
         n = rng.choice([2, 3, 5, 17, 64, 300, 1000] if not quick else [2, 5, 17, 64, 300])
         rates = [0.0 if rng.random() < 0.2 else 10 ** rng.uniform(-9, 2) for _ in range(n)]
@@ -313,7 +313,7 @@ def run(chk, replay=None):
         chk.nontrivial('rand|%d|%d' % (n, t))
 
     # ---------------------------------------------------------------- 4. L-test: Poisson number of events, conserved
-    for t in range(6 if quick else 40):
+    for t in range(6 if quick else 200):
         n = rng.choice([3, 10, 50])
         rates = [0.0 if rng.random() < 0.2 else 10 ** rng.uniform(-3, 1) for _ in range(n)]
         rates[0] = max(rates[0], 0.5)
